@@ -363,6 +363,19 @@ func genIngress(g *Rng, tier string) *Plan {
 		if g.Bool(0.2) {
 			st.Edits = append(st.Edits, c05Edit{Op: Pick(g, "indent", "reprefix")})
 		}
+		if g.Bool(0.15) {
+			op := Pick(g, "qualified", "declared")
+			switch g.Intn(4) {
+			case 0:
+				st.Edits = append(st.Edits, c05Edit{Op: op, Name: "Destination", Value: c05SSO[st.Tenant]})
+			case 1:
+				st.Edits = append(st.Edits, c05Edit{Op: op, Name: "IssueInstant", Value: "@now"})
+			case 2:
+				st.Edits = append(st.Edits, c05Edit{Op: op, Name: "Version", Value: "2.0"})
+			default:
+				st.Edits = append(st.Edits, c05Edit{Op: op, Name: "Destination", Value: "https://other-idp.example.net/sso"}, c05Edit{Op: op, Name: "Version", Value: "1.1"})
+			}
+		}
 		p.Steps = append(p.Steps, mustJSON(st))
 	}
 	return p
@@ -545,21 +558,31 @@ func c05Read(xml []byte) (*c05View, *etree.Document, error) {
 		return nil, nil, fmt.Errorf("no root")
 	}
 	v := &c05View{}
-	v.version = root.SelectAttrValue("Version", "")
-	if a := root.SelectAttr("Destination"); a != nil {
-		v.dest, v.hasDest = a.Value, true
+	// the attributes the protocol defines are unqualified: what a request says in another namespace, or in its namespace declarations, it does not say here
+	attr := func(name string) (string, bool) {
+		for _, a := range root.Attr {
+			if a.Space == "" && a.Key == name {
+				return a.Value, true
+			}
+		}
+		return "", false
+	}
+	v.version, _ = attr("Version")
+	if d, ok := attr("Destination"); ok {
+		v.dest, v.hasDest = d, true
 	}
 	for _, c := range root.ChildElements() {
 		if c.Tag == "Issuer" {
 			v.issuer, v.hasIssuer = c.Text(), true
 		}
 	}
-	if t, err := time.Parse(c05TimeForm, root.SelectAttrValue("IssueInstant", "")); err == nil {
+	ii, _ := attr("IssueInstant")
+	if t, err := time.Parse(c05TimeForm, ii); err == nil {
 		v.instant, v.instantOK = t, true
 	}
-	v.acsURL = root.SelectAttrValue("AssertionConsumerServiceURL", "")
-	v.acsIdx = root.SelectAttrValue("AssertionConsumerServiceIndex", "")
-	v.id = root.SelectAttrValue("ID", "")
+	v.acsURL, _ = attr("AssertionConsumerServiceURL")
+	v.acsIdx, _ = attr("AssertionConsumerServiceIndex")
+	v.id, _ = attr("ID")
 	return v, doc, nil
 }
 
@@ -582,6 +605,19 @@ func c05Apply(doc *etree.Document, e c05Edit, idpNow time.Time) {
 			if c.Tag == "Issuer" {
 				root.RemoveChild(c)
 			}
+		}
+	case "qualified", "declared":
+		// the request says something under the name of a protocol attribute, but in a foreign namespace (x:Destination="...") or as the
+		// URI of a namespace prefix nobody uses (xmlns:Destination="..."): extension content; the unqualified attribute (or its absence) stands
+		val := e.Value
+		if val == "@now" {
+			val = idpNow.UTC().Format(c05TimeForm)
+		}
+		if e.Op == "qualified" {
+			root.CreateAttr("xmlns:x", "urn:example:ext")
+			root.CreateAttr("x:"+e.Name, val)
+		} else {
+			root.CreateAttr("xmlns:"+e.Name, val)
 		}
 	case "add-conditions":
 		// the (unsigned) request carries a Conditions element of its own, promising validity far into the future:
